@@ -167,7 +167,9 @@ def mw_handle_target(target_text, target_format):
 def _read_stdin():
     try:
         return sys.stdin.read()
-    except (OSError, UnicodeError) as e:
+    except (OSError, ValueError, AttributeError) as e:
+        # ValueError: undecodable input (UnicodeError) or a closed stdin;
+        # AttributeError: no stdin at all (sys.stdin is None)
         raise UsageError(f'could not read target data from stdin, got: {e}')
 
 
